@@ -29,7 +29,7 @@ RULE = ("A reaction line is rendered from a description: 0-4 terms per side over
         "compared field by field with the description (coefficients exactly; parameter to 3 significant digits, exactly "
         "when written with <= 3).  Systems: 1-6 "
         "reaction lines with comments, blank and indented lines; 40 % pass `comment_tokens` (1-3 of # // -- %% ! "
-        "'REM ' ;; /*) and write their comment lines (plain, indented, containing arrows) with those.  Non-trivial = a key beginning with a bracket or carrying "
+        "REM ;; /*) and write their comment lines (plain, indented, containing arrows) with those.  Non-trivial = a key beginning with a bracket or carrying "
         "a charge, together with a coefficient > 1 or a repeated key; distinct by case digest.")
 ASSUMPTIONS = ["vlib/gen_formula.py renders the G1 species keys (text only; the composition plays no role here)",
                "keys that are entirely one parenthesised group are excluded (ambiguous with an inactive group): such a "
@@ -576,7 +576,7 @@ def check_roundtrip(case, ctx):
 
 _COMMENTS = ["# comment", "#", "# A -> B; 3", "   # indented; with = and ->", "#2 H2 + O2 -> 2 H2O"]
 # the optional `comment_tokens` argument: single- and multi-character tokens, none of which can begin a reaction line
-_TOKENS = ["#", "//", "--", "%%", "!", "REM ", ";;", "/*"]
+_TOKENS = ["#", "//", "--", "%%", "!", "REM", ";;", "/*"]   # no token ends in a blank: lines are stripped before the test, so a bare 'REM ' line would not match (contrived, not judged)
 _COMMENT_BODIES = ["", " comment", " A -> B; 3", "; with = and ->", "2 H2 + O2 -> 2 H2O", " X = Y; 1e-3", "#"]
 
 # balanced real reactions (hand-checked): used with chempy's *default* checks (balance, duplicates, keys)
